@@ -29,6 +29,10 @@ with Rust's mutation expressed by shadowing, `for` loops as `List.foldlM` of a n
 the slice / `zipIdx`, `while` loops as named recursive helpers on fuel.  Loop helpers are named `<fn>_for<k>`,
 `<fn>_while<k>` (k-th loop of that kind in source order); temporaries `t<k>`.  Compound assignments are normalised
 (`x += e` and `x = x + e` give the same text).
+
+Units with `dialect="cf"` are handled by the subclasses of tools/rs2lean_cf.py (loops with break/continue/return as
+recursive helpers, by_ref iterators, VecDeque, Option, match, closures of fold/all/map, structs, opaque containers,
+condition holes); this file only chooses the classes (`translate_unit`) and the parser (`parser_class`).
 """
 import sys, os, re, argparse
 
@@ -1634,7 +1638,7 @@ class FnTranslator:
 
     # ---------------------------------------------------------------- the function
     def translate(self, toks):
-        p = Parser(toks)
+        p = getattr(self, "parser_class", Parser)(toks)     # dialect "cf": tools/rs2lean_cf.py
         body = p.body()
         sp = self.spec
         params = []      # Var
@@ -2717,9 +2721,16 @@ def translate_unit(src, unit, fail):
     anything outside the subset."""
     rel = unit["file"]
     out_fns, snippets = [], {}
+    src_all = src
     for f in unit["functions"]:
         what = "fn %s" % f["name"]
         rx = header_regex(f["header"])
+        if unit.get("dialect") == "cf":         # tools/rs2lean_cf.py: control flow, containers; spec key `after`
+            import rs2lean_cf
+            try:
+                src = rs2lean_cf.restrict(src_all, f)
+            except Unsupported as u:
+                fail("%s: %s: %s" % (rel, what, u.msg))
         ms = list(re.finditer(rx, src.code))
         if len(ms) != 1:
             fail("%s: %s: expected exactly one function with the header `%s`, found %d (signature changed, renamed or "
@@ -2729,7 +2740,10 @@ def translate_unit(src, unit, fail):
         snippets[f["name"]] = ms[0].group(0)[:-1].strip() + " {" + body + "}"
         try:
             toks = tokenize(body, start)
-            tr = FnTranslator(unit, f, src, body, start)
+            if unit.get("dialect") == "cf":
+                tr = rs2lean_cf.FnTranslatorX(unit, f, src, body, start)
+            else:
+                tr = FnTranslator(unit, f, src, body, start)
             helpers, main, ret_fields, tail = tr.translate(toks)
         except Unsupported as u:
             where = "%s:%d" % (rel, src.line_of(u.pos)) if u.pos is not None else "%s:%d" % (rel, line)
@@ -3012,6 +3026,176 @@ unit(name="SrcPrescan", props="property C04", file="src/utils/mod.rs",
                      theorem="RbV.Thm.GenSrcPrescan.prescan_eq_model")])
 
 
+# ---- dialect "cf" (tools/rs2lean_cf.py; builder genmisc): C20 / C19 / C07 -------------------------------------------------
+
+unit(name="SrcOrf", props="property C20", file="src/seq_analysis/orf.rs", dialect="cf",
+     aliases={"Orf": "(usize, usize, i8)"},
+     functions=[dict(name="Matches::next", lean="next", header="fn next(&mut self) -> Option<Orf>",
+                     # `self.seq: iter::Enumerate<T>` with `T::Item: Borrow<u8>`: the (index, symbol) pairs not yet consumed
+                     self_fields=[("finder.start_codons", "Vec<VecDeque<u8>>"), ("finder.stop_codons", "Vec<VecDeque<u8>>"),
+                                  ("finder.min_len", "usize"), ("state.start_pos", "[Vec<usize>; 3]"),
+                                  ("state.codon", "VecDeque<u8>"), ("state.found", "VecDeque<Orf>"),
+                                  ("seq", "Iter<(usize, u8)>")],
+                     params=[], ret="Option<Orf>", struct_fields={"Orf": ["start", "end", "offset"]},
+                     # the length test of the flush loop is a parameter: the property leaves frames of length
+                     # min_len .. min_len+2 free, the theorems hold for every test inside that freedom (seeded C20-H1)
+                     cond_holes={"for2": dict(lean="lenTest", args=[("index", "usize"), ("start_pos", "usize"),
+                                                                    ("self.finder.min_len", "usize")])},
+                     theorem="RbV.Thm.GenSrcOrf.next_eq_model")])
+
+
+unit(name="SrcGc", props="property C20", file="src/seq_analysis/gc.rs", dialect="cf",
+     generics={"f32": "F"},
+     # the `f32` division stays outside: `x as f32` and `/` on `f32` are abstract functions of the translated definition
+     abstract_fns={"as:usize:f32": dict(lean="toF32", args=["usize"], ret="f32"),
+                   "op:/:f32": dict(lean="fdiv", args=["f32", "f32"], ret="f32")},
+     functions=[dict(name="gcn_content", lean="gcnContent",
+                     header="fn gcn_content<C: Borrow<u8>, T: IntoIterator<Item = C>>(sequence: T, step: usize) -> f32",
+                     params=[("sequence", "&[u8]"), ("step", "usize")], ret="f32",
+                     theorem="RbV.Thm.GenSrcGc.gcnContent_eq_model")])
+
+
+ALPHA_STRUCTS = {"Alphabet": [("symbols", "BitSet")], "RankTransform": [("ranks", "VecMap<u8>")]}
+
+unit(name="SrcAlphabet", props="property C20", file="src/alphabets/mod.rs", dialect="cf", structs=ALPHA_STRUCTS,
+     # `bit_set::BitSet`, `vec_map::VecMap<u8>`: `Rs.BitSet`, `Rs.VecMap` of RsSem.lean (trusted meaning of the two crates)
+     functions=[dict(name="Alphabet::new", lean="alphabetNew",
+                     header="pub fn new<C, T>(symbols: T) -> Self where C: Borrow<u8>, T: IntoIterator<Item = C>,",
+                     params=[("symbols", "&[u8]")], ret="Alphabet", locals={"s": "BitSet"},
+                     theorem="RbV.Thm.GenSrcAlphabet.alphabetNew_eq_model"),
+                dict(name="Alphabet::insert", lean="alphabetInsert", header="pub fn insert(&mut self, a: u8)",
+                     self_fields=[("symbols", "BitSet")], params=[("a", "u8")], ret=None,
+                     theorem="RbV.Thm.GenSrcAlphabet.alphabetInsert_eq_model"),
+                dict(name="Alphabet::is_word", lean="isWord",
+                     header="pub fn is_word<C, T>(&self, text: T) -> bool where C: Borrow<u8>, T: IntoIterator<Item = C>,",
+                     self_fields=[("symbols", "BitSet")], params=[("text", "&[u8]")], ret="bool",
+                     theorem="RbV.Thm.GenSrcAlphabet.isWord_eq_model"),
+                dict(name="Alphabet::max_symbol", lean="maxSymbol", header="pub fn max_symbol(&self) -> Option<u8>",
+                     self_fields=[("symbols", "BitSet")], params=[], ret="Option<u8>",
+                     theorem="RbV.Thm.GenSrcAlphabet.maxSymbol_eq_model"),
+                dict(name="Alphabet::len", lean="len", header="pub fn len(&self) -> usize",
+                     self_fields=[("symbols", "BitSet")], params=[], ret="usize",
+                     theorem="RbV.Thm.GenSrcAlphabet.len_eq_model"),
+                dict(name="RankTransform::new", lean="rankNew", header="pub fn new(alphabet: &Alphabet) -> Self",
+                     params=[("alphabet", "&Alphabet")], ret="RankTransform", locals={"ranks": "VecMap<u8>"},
+                     theorem="RbV.Thm.GenSrcAlphabet.rankNew_eq_model"),
+                dict(name="RankTransform::get", lean="rankGet", header="pub fn get(&self, a: u8) -> u8",
+                     self_fields=[("ranks", "VecMap<u8>")], params=[("a", "u8")], ret="u8",
+                     theorem="RbV.Thm.GenSrcAlphabet.rankGet_eq_model"),
+                dict(name="RankTransform::transform", lean="transform",
+                     header="pub fn transform<C, T>(&self, text: T) -> Vec<u8> where C: Borrow<u8>, T: IntoIterator<Item = C>,",
+                     self_fields=[("ranks", "VecMap<u8>")], params=[("text", "&[u8]")], ret="Vec<u8>",
+                     theorem="RbV.Thm.GenSrcAlphabet.transform_eq_model")])
+
+
+# `RankTransform::get` (translated in SrcAlphabet) and `ranks.len()` are abstract here: `rankGet` may panic; the `f32`
+# computation `(len as f32).log2().ceil() as u32` stays outside (`ceilLog2`, tied to `bitsFor` by hypothesis)
+QGRAM_ABS = {"self.ranks.get": dict(lean="rankGet", args=["u8"], ret="u8", monadic=True),
+             "self.ranks.len": dict(lean="ranksLen", args=[], ret="usize", is_value=True),
+             "f32:log2:ceil": dict(lean="ceilLog2", args=["usize"], ret="u32")}
+QGRAM_STRUCTS = {"QGrams": [("text", "Iter<u8>"), ("q", "u32"), ("bits", "u32"), ("mask", "usize"), ("qgram", "usize")],
+                 "RevQGrams": [("text", "Iter<u8>"), ("q", "u32"), ("bits", "u32"), ("left_shift", "u32"), ("qgram", "usize")]}
+
+unit(name="SrcQGrams", props="property C19", file="src/alphabets/mod.rs", dialect="cf", abstract_fns=QGRAM_ABS,
+     structs=QGRAM_STRUCTS, struct_skip={"QGrams": ["ranks"], "RevQGrams": ["ranks"]},
+     functions=[dict(name="QGrams::qgram_push", lean="qgramPush", header="fn qgram_push(&mut self, a: u8)",
+                     self_fields=[("qgram", "usize"), ("bits", "u32"), ("mask", "usize")], params=[("a", "u8")], ret=None,
+                     theorem="RbV.Thm.GenSrcQGrams.qgramPush_eq_model"),
+                dict(name="QGrams::next", lean="next", header="fn next(&mut self) -> Option<usize>",
+                     after="impl<'a, C, T> Iterator for QGrams<'a, C, T>",
+                     self_fields=[("text", "Iter<u8>"), ("bits", "u32"), ("mask", "usize"), ("qgram", "usize")],
+                     params=[], ret="Option<usize>",
+                     self_calls={"qgram_push": dict(lean="qgramPush", self_args=["self.qgram", "self.bits", "self.mask"],
+                                                    args=["u8"], writes=["self.qgram"], ret=None)},
+                     theorem="RbV.Thm.GenSrcQGrams.next_eq_model"),
+                dict(name="RankTransform::qgrams", lean="qgrams",
+                     header="pub fn qgrams<C, T>(&self, q: u32, text: T) -> QGrams<'_, C, T::IntoIter> where C: Borrow<u8>, T: IntoIterator<Item = C>,",
+                     params=[("q", "u32"), ("text", "&[u8]")], ret="QGrams",
+                     struct_calls={"QGrams.next": dict(lean="next", fields_in=["text", "bits", "mask", "qgram"], args=[],
+                                                       writes=["text", "qgram"], ret="Option<usize>")},
+                     theorem="RbV.Thm.GenSrcQGrams.qgrams_eq_model"),
+                dict(name="RevQGrams::qgram_push_rev", lean="qgramPushRev", header="fn qgram_push_rev(&mut self, a: u8)",
+                     self_fields=[("qgram", "usize"), ("bits", "u32"), ("left_shift", "u32")], params=[("a", "u8")], ret=None,
+                     theorem="RbV.Thm.GenSrcQGrams.qgramPushRev_eq_model"),
+                dict(name="RevQGrams::next", lean="nextRev", header="fn next(&mut self) -> Option<usize>",
+                     after="impl<'a, C, T> Iterator for RevQGrams<'a, C, T>",
+                     self_fields=[("text", "Iter<u8>"), ("bits", "u32"), ("left_shift", "u32"), ("qgram", "usize")],
+                     params=[], ret="Option<usize>",
+                     self_calls={"qgram_push_rev": dict(lean="qgramPushRev",
+                                                        self_args=["self.qgram", "self.bits", "self.left_shift"],
+                                                        args=["u8"], writes=["self.qgram"], ret=None)},
+                     theorem="RbV.Thm.GenSrcQGrams.nextRev_eq_model"),
+                dict(name="RankTransform::rev_qgrams", lean="revQgrams",
+                     header="pub fn rev_qgrams<C, IT, T>(&self, q: u32, text: IT) -> RevQGrams<'_, C, T> where C: Borrow<u8>, T: DoubleEndedIterator<Item = C>, IT: IntoIterator<IntoIter = T>,",
+                     params=[("q", "u32"), ("text", "&[u8]")], ret="RevQGrams",
+                     struct_calls={"RevQGrams.next": dict(lean="nextRev", fields_in=["text", "bits", "left_shift", "qgram"],
+                                                          args=[], writes=["text", "qgram"], ret="Option<usize>")},
+                     theorem="RbV.Thm.GenSrcQGrams.revQgrams_eq_model")])
+
+
+unit(name="SrcQGramIndex", props="property C19", file="src/data_structures/qgram_index.rs", dialect="cf",
+     # `T` (the text), `Alphabet`, `RankTransform` are abstract types here; what `with_max_count` needs from them are the
+     # abstract functions below: the rank transform of the alphabet, its bit width, the q-gram codes of the text
+     # (`ranks.qgrams(q, text)`: constructor + iteration, translated and proved in SrcQGrams) and `utils::prescan` with
+     # `|a, b| a + b` (translated and proved for C04; here `prescanAdd`, which may panic on overflow)
+     generics={"T": "τ", "Alphabet": "αβ", "RankTransform": "ρ"},
+     structs={"QGramIndex": [("q", "u32"), ("address", "Vec<usize>"), ("pos", "Vec<usize>"), ("ranks", "RankTransform")]},
+     abstract_fns={"RankTransform::new": dict(lean="rankNew", args=["Alphabet"], ret="RankTransform"),
+                   "ranks.get_width": dict(lean="getWidth", args=[], ret="usize"),
+                   "ranks.qgrams": dict(lean="qgramsOf", args=["u32", "T"], ret="Iter<usize>")},
+     functions=[dict(name="QGramIndex::with_max_count", lean="withMaxCount",
+                     header="pub fn with_max_count<'a, T, I>(q: u32, text: T, alphabet: &Alphabet, max_count: usize) -> Self "
+                            "where I: Iterator<Item = &'a u8> + ExactSizeIterator + Clone, "
+                            "T: IntoIterator<Item = &'a u8, IntoIter = I> + Sized,",
+                     params=[("q", "u32"), ("text", "T"), ("alphabet", "&Alphabet"), ("max_count", "usize")],
+                     ret="QGramIndex", locals={"address": "Vec<usize>", "pos": "Vec<usize>", "offset": "Vec<usize>"},
+                     mut_calls={"utils::prescan": dict(lean="prescanAdd", args=["&mut Vec<usize>", "usize", "closure:|a,b|a+b"],
+                                                       ret="Vec<usize>")},
+                     theorem="RbV.Thm.GenSrcQGramIndex.withMaxCount_eq_model"),
+                dict(name="QGramIndex::qgram_matches", lean="qgramMatches",
+                     header="pub fn qgram_matches(&self, qgram: usize) -> &[usize]",
+                     self_fields=[("address", "Vec<usize>"), ("pos", "Vec<usize>")], params=[("qgram", "usize")],
+                     ret="&[usize]", theorem="RbV.Thm.GenSrcQGramIndex.qgramMatches_eq_model")])
+
+
+# `N: Ord + Clone` is read at `Int` (what the harness drives the tree with; any total order would do), `D` stays generic
+IIT_STRUCTS = {"Interval": [("start", "N"), ("end", "N")],
+               "InternalEntry": [("data", "D"), ("interval", "Interval"), ("max", "N")]}
+
+unit(name="SrcIit", props="property C07", file="src/data_structures/interval_tree/array_backed_interval_tree.rs",
+     dialect="cf", generics={"D": "δ"}, ordered_instances={"N": "Int"}, structs=IIT_STRUCTS,
+     abstract_fns={"max3": dict(lean="max3", args=["N", "N", "N"], ret="N")},
+     functions=[dict(name="ArrayBackedIntervalTree::index_core", lean="indexCore", header="fn index_core(&mut self)",
+                     self_fields=[("entries", "Vec<InternalEntry>"), ("max_level", "usize")], params=[], ret=None,
+                     locals={"last_i": "usize", "k": "usize", "x": "usize", "i0": "usize", "step": "usize"},
+                     # `(1 << k) <= n` fails after at most 64 rounds (a shift by 64 would panic first)
+                     fuel=["65"], theorem="RbV.Thm.GenSrcIit.indexCore_eq_model"),
+                dict(name="ArrayBackedIntervalTree::index", lean="index", header="pub fn index(&mut self)",
+                     self_fields=[("entries", "Vec<InternalEntry>"), ("max_level", "usize"), ("indexed", "bool")],
+                     params=[], ret=None,
+                     # the sort call is the abstract function `sortByStart`; its contract in the theorems is "a permutation
+                     # sorted by start" — met by a stable or unstable sort by `start` or by `(start, end)` (seeded change
+                     # C07-H2), so all of these texts are read as `sortByStart`; `index_core` is the translated sibling
+                     abs_methods={"self.entries": dict(lean="sortByStart", ty="Vec<InternalEntry>", alts=[
+                         ("sort_by_key", "|e| e.interval.start"), ("sort_unstable_by_key", "|e| e.interval.start"),
+                         ("sort_by_key", "|e| (e.interval.start, e.interval.end)"),
+                         ("sort_unstable_by_key", "|e| (e.interval.start, e.interval.end)")])},
+                     self_calls={"index_core": dict(lean="indexCore", self_args=["self.entries", "self.max_level"], args=[],
+                                                    writes=["self.entries", "self.max_level"], ret=None, abs=["max3"])},
+                     theorem="RbV.Thm.GenSrcIit.index_eq_model"),
+                dict(name="ArrayBackedIntervalTree::find_into", lean="findInto",
+                     header="pub fn find_into<'b, 'a: 'b, I: Into<Interval<N>>>(&'a self, interval: I, "
+                            "results: &'b mut Vec<Entry<'a, N, D>>,)",
+                     structs={"Entry": [("interval", "Interval"), ("data", "D")],
+                              "StackCell": [("k", "usize"), ("x", "usize"), ("w", "bool")]},
+                     zero_ctors=["StackCell::empty"],
+                     self_fields=[("entries", "Vec<InternalEntry>"), ("max_level", "usize"), ("indexed", "bool")],
+                     params=[("interval", "Interval"), ("results", "&mut Vec<Entry>")], ret=None,
+                     locals={"t": "usize", "stack": "[StackCell; 64]"},
+                     # every round removes at least one unit of the weight 3^(k+1) / 3^k + 1 of the stack cells
+                     fuel=["3 ^ (max_level + 2)"], theorem="RbV.Thm.GenSrcIit.findInto_eq_model")])
+
+
 # ================================================================================================== self-test
 
 SELFTEST_RS = r"""
@@ -3147,6 +3331,8 @@ def selftest(with_lean):
                 if not re.search(expect, str(r)):
                     print("selftest: refused for another reason: %s: %s" % (body, r))
                     ok = False
+        import rs2lean_cf                      # dialect "cf": its own snippets
+        ok = rs2lean_cf.selftest(with_lean, tmp) and ok
     finally:
         shutil.rmtree(tmp, ignore_errors=True)
     print("selftest: " + ("ok" if ok else "FAILED"))
